@@ -123,6 +123,20 @@ def run_ids(res, d):
         ws3.append(row)
     wb.save(p)
     one = dict(kind='ids')
+    # the identifier column given by position (documented: "column name or index") behaves like the name
+    try:
+        t0 = ui.read_table(p, 'T', index_col=0)
+        if list(t0.index) != ['a', 'b', 'c'] or [float(x) for x in t0['v']] != [1.0, 3.0, 4.5]:
+            res.violation('ids:empty-not-dropped:by-position', 'rows without identifier, identifier column given as position 0: read identifiers %r' % (list(t0.index),), one)
+        else:
+            res.ok('ids:empty-dropped', True)
+    except Exception as e:
+        res.violation('ids:by-position-raises', 'read_table(index_col=0) raised %s: %s' % (type(e).__name__, e), one)
+    try:
+        ui.read_table(p, 'Dup', index_col=0)
+        res.violation('ids:duplicate-accepted:by-position', 'a sheet with duplicated identifiers was read without error (index_col=0)', one)
+    except ValueError:
+        res.ok('ids:duplicate-refused', True)
     try:
         t = ui.read_table(p, 'T', index_col='ID')
     except Exception as e:
